@@ -3,6 +3,7 @@ import Mathlib.Data.Nat.Sqrt
 import FeatModel.Model.Solver.RatVec
 import FeatModel.Lemmas.C07Krylov
 import FeatModel.Lemmas.C07Krylov2
+import FeatModel.Lemmas.C07CG
 /-! Helper lemmas for C07: the instance the driver executes (`Vector Rat n`, dense matrix, unit-filter mask, arbitrary
     preconditioner) satisfies the linear-algebra laws `Lawful`; the fast square root equals `Nat.sqrt`. -/
 namespace FeatModel.Solver
@@ -95,6 +96,87 @@ theorem ratSys_lawfulLin {n : Nat} (A : RMat n) (mask : Vector Bool n) (pre : Op
   rw [getElem_maskF, getElem_matVec, vdot_axpy, vdot_scale, getElem_vaxpy, getElem_vscale, getElem_maskF,
     getElem_maskF, getElem_matVec, getElem_matVec]
   split <;> ring
+
+theorem ratSysF_lawful {n : Nat} (A : RMat n) (mask : Vector Bool n) (k : FeatPre) (w : Rat) :
+    Lawful (ratSysF A mask k w) :=
+  ⟨(ratSys_lawful A mask none).resid_step, (ratSys_lawful A mask none).resid_zero⟩
+
+theorem ratSysF_lawfulLin {n : Nat} (A : RMat n) (mask : Vector Bool n) (k : FeatPre) (w : Rat) :
+    LawfulLin (ratSysF A mask k w) :=
+  ⟨ratSysF_lawful A mask k w, (ratSys_lawfulLin A mask none).lin_comb⟩
+
+/-- `Σ_i f i` as the fold the model uses -/
+def sumF (n : Nat) (f : Fin n → Rat) : Rat := Fin.foldl n (fun acc i => acc + f i) 0
+
+theorem sumF_succ (n : Nat) (f : Fin (n + 1) → Rat) :
+    sumF (n + 1) f = sumF n (fun i => f i.castSucc) + f (Fin.last n) := by
+  simp only [sumF, Fin.foldl_succ_last]
+
+theorem sumF_add (n : Nat) (f g : Fin n → Rat) : sumF n (fun i => f i + g i) = sumF n f + sumF n g := by
+  have := foldl_sum_linear n f g 1
+  simp only [one_mul] at this
+  simpa [sumF] using this
+
+theorem sumF_mul (n : Nat) (g : Fin n → Rat) (c : Rat) : sumF n (fun i => g i * c) = sumF n g * c := by
+  induction n with
+  | zero => simp [sumF, Fin.foldl_zero]
+  | succ n ih => rw [sumF_succ, sumF_succ, ih]; ring
+
+theorem sumF_congr (n : Nat) (f g : Fin n → Rat) (h : ∀ i, f i = g i) : sumF n f = sumF n g := by
+  have : f = g := funext h
+  rw [this]
+
+theorem sumF_swap (n m : Nat) (f : Fin n → Fin m → Rat) :
+    sumF n (fun i => sumF m (fun j => f i j)) = sumF m (fun j => sumF n (fun i => f i j)) := by
+  induction n with
+  | zero =>
+    simp only [sumF, Fin.foldl_zero]
+    symm
+    exact foldl_sum_zero m _ (fun _ => rfl)
+  | succ n ih =>
+    rw [sumF_succ, ih]
+    rw [show (fun j => sumF (n + 1) (fun i => f i j)) =
+      fun j => sumF n (fun i => f i.castSucc j) + f (Fin.last n) j from funext fun j => sumF_succ n _]
+    rw [sumF_add]
+
+theorem vdot_eq_sumF {n : Nat} (a b : RVec n) : vdot a b = sumF n (fun i => a[i] * b[i]) := rfl
+
+theorem vdot_comm {n : Nat} (a b : RVec n) : vdot a b = vdot b a := by
+  rw [vdot_eq_sumF, vdot_eq_sumF]
+  exact sumF_congr n _ _ (fun i => by ring)
+
+/-- a symmetric matrix is self-adjoint for `vdot` -/
+theorem matVec_sym {n : Nat} (A : RMat n) (hs : ∀ (i j : Fin n), A[i][j] = A[j][i]) (x y : RVec n) :
+    vdot (matVec A x) y = vdot x (matVec A y) := by
+  rw [vdot_eq_sumF, vdot_eq_sumF]
+  have h1 : ∀ i : Fin n, (matVec A x)[i] * y[i] = sumF n (fun j => A[i][j] * x[j] * y[i]) := by
+    intro i
+    rw [show (matVec A x)[i] = vdot A[i] x from getElem_matVec A x i.val i.isLt, vdot_eq_sumF, ← sumF_mul]
+  have h2 : ∀ j : Fin n, x[j] * (matVec A y)[j] = sumF n (fun i => A[i][j] * x[j] * y[i]) := by
+    intro j
+    rw [show (matVec A y)[j] = vdot A[j] y from getElem_matVec A y j.val j.isLt, vdot_eq_sumF, mul_comm, ← sumF_mul]
+    exact sumF_congr n _ _ (fun i => by rw [hs j i]; ring)
+  rw [sumF_congr n _ _ h1, sumF_congr n _ _ h2, sumF_swap]
+
+theorem maskF_none {n : Nat} (v : RVec n) : maskF (Vector.ofFn fun _ => false) v = v := by
+  apply Vector.ext
+  intro i hi
+  rw [getElem_maskF]
+  simp
+
+/-- plain CG (no filter, no preconditioner) on a symmetric matrix: the driver's system satisfies the laws of the
+    CG induction with `M = id` -/
+theorem ratSys_cgLaws {n : Nat} (A : RMat n) (hs : ∀ (i j : Fin n), A[i][j] = A[j][i]) :
+    CgLaws (ratSys A (Vector.ofFn fun _ => false) none) (fun v => v) where
+  dot_comm := fun x y => vdot_comm x y
+  dot_axpy := fun y x p a => vdot_axpy y x p a
+  dot_scale := fun y x a => vdot_scale y x a
+  a_sym := fun x y => matVec_sym A hs x y
+  no_filter := fun v => maskF_none v
+  prec_eq := fun k v => by
+    show precOf _ none k v = some v
+    simp only [precOf, maskF_none]
+  m_sym := fun _ _ => rfl
 
 theorem fastSqrt_eq (m : Nat) : fastSqrt m = Nat.sqrt m := by
   simp only [fastSqrt]
